@@ -18,7 +18,8 @@ def main():
     # work on a scratch copy of /repo's working tree (outside /repo and /verif); cutplace is imported from it
     # through CPVERIF_REPO, so /repo itself is never touched and other runs are not disturbed
     scratch = tempfile.mkdtemp(prefix="cpverif_mutants_")
-    sh("git -C /repo archive HEAD | tar -x -C %s && cd %s && git init -q && git add -A && git -c user.name=x -c user.email=x@x commit -q -m scratch" % (scratch, scratch))
+    # (a clone, so that "revert" entries can undo a repair commit with git's own merge machinery)
+    sh("git clone -q /repo %s" % scratch)
     env = dict(os.environ, CPVERIF_REPO=scratch, CPVERIF_OUT=os.path.join(scratch, "out"))
     results = []
     selected = [m for m in mutants if not args or any(a in m["name"] for a in args)]
@@ -33,13 +34,22 @@ def main():
     for m in mutants:
         if args and not any(a in m["name"] for a in args):
             continue
-        path = os.path.join(scratch, m["file"])
-        src = open(path, encoding="utf-8").read()
-        if src.count(m["old"]) != 1:
-            results.append((m["name"], "STALE (old text occurs %d times)" % src.count(m["old"])));
-            print(results[-1]); continue
+        if "revert" in m:
+            r = sh("git -C %s -c user.name=x -c user.email=x@x revert --no-commit %s" % (scratch, m["revert"]))
+            if r.returncode != 0:
+                sh("git -C %s revert --abort; git -C %s reset -q --hard" % (scratch, scratch))
+                results.append((m["name"], "STALE (revert does not apply)"))
+                print(results[-1]); continue
+            path, src = None, None
+        else:
+            path = os.path.join(scratch, m["file"])
+            src = open(path, encoding="utf-8").read()
+            if src.count(m["old"]) != 1:
+                results.append((m["name"], "STALE (old text occurs %d times)" % src.count(m["old"])));
+                print(results[-1]); continue
         try:
-            open(path, "w", encoding="utf-8").write(src.replace(m["old"], m["new"]))
+            if path:
+                open(path, "w", encoding="utf-8").write(src.replace(m["old"], m["new"]))
             status = []
             if with_baseline:
                 b = sh("/venv/bin/python %s/tools/baseline_off.py --repo %s" % (HERE, scratch))
@@ -50,7 +60,10 @@ def main():
                 caught = r.returncode == 1 and "VIOLATION property=%s" % prop in r.stdout
                 status.append("%s:%s(%.0fs)" % (prop, "caught" if caught else ("MISSED rc=%d" % r.returncode), time.time() - t0))
         finally:
-            open(path, "w", encoding="utf-8").write(src)
+            if path:
+                open(path, "w", encoding="utf-8").write(src)
+            else:
+                sh("git -C %s revert --abort; git -C %s reset -q --hard" % (scratch, scratch))
         results.append((m["name"], " ".join(status)))
         print(results[-1], flush=True)
     shutil.rmtree(scratch, ignore_errors=True)
